@@ -336,7 +336,8 @@ impl Drop for StdoutLock {
 }
 impl Write for Stdout {
     fn write(&mut self, buf: &[u8]) -> io::Result<usize> {
-        let _lock = self.lock();
+        // like std: one write on the unlocked handle takes the lock for just that write; the
+        // world makes the write atomic and makes it wait while another thread holds the lock
         world().stdout_write(buf)
     }
     fn flush(&mut self) -> io::Result<()> {
